@@ -183,6 +183,15 @@ pub fn setup(rng: &mut Rng, columns: u32, lines: u32, prof: &Profile) -> Vec<Op>
         // the fill must not wrap/scroll: turn autowrap off while filling
         ops.push(Op::Feed(format!("\x1b[?7l{}\x1b[?7h\x1b[m", s)));
     }
+    // rows / stretches of blanks that carry nothing but attributes (coloured bars)
+    if rng.below(100) < 25 {
+        let y = rng.range(1, l);
+        match rng.below(3) {
+            0 => ops.push(Op::Feed(format!("\x1b[{};1H\x1b[0;{}m\x1b[2K\x1b[m", y, 41 + rng.below(6)))),
+            1 => ops.push(Op::Feed(format!("\x1b[{};1H\x1b[0;7m{}\x1b[m", y, " ".repeat(rng.range(1, c) as usize)))),
+            _ => ops.push(Op::Feed(format!("\x1b[{};{}H\x1b[0;4;9m\x1b[{}X\x1b[m", y, rng.range(1, c), rng.range(1, c)))),
+        }
+    }
     if rng.below(100) < 30 {
         ops.push(Op::Api(Call::Display));
     }
